@@ -123,6 +123,17 @@ def history(sh: Shard, seed, idx):
                 x = 0.1 if step % 40 else 0.9
             if x < 0.5:
                 ch = [(r.choice([r.randrange(0, 1022), 300, 301]), word()) for _ in range(r.choice([0, 1, 1, 2, 5, 5, 127, 128, 200, 254]))]
+                if ch and len(ch) <= 250 and r.random() < 0.3:
+                    ch.append((ch[0][0], word()))  # the same position again, later in the same message
+                if ch and len(ch) <= 250 and r.random() < 0.3:
+                    # a later record of the same message puts back what was there before the message
+                    p0 = ch[0][0]
+                    before_ = rig.sim_block
+                    if r.random() < 0.5:
+                        ch.append((p0, before_[p0 : p0 + 2]))
+                    elif p0 + 3 <= 1024:
+                        ch.append((p0 + 1, before_[p0 + 1 : p0 + 3]))
+                    sh.count("threaded_statp_with_restoring_record")
                 if len(ch) >= 128:
                     sh.count("threaded_statp_with_128_or_more_records")
                 rig.set_sim_block(apply_changes(rig.sim_block, ch))
@@ -195,5 +206,6 @@ def add(run, tier, seed):
     run.need(run.counters.get("threaded_early_statp", 0) > 10, "threaded client: no partial update during the handshake")
     run.need(run.counters.get("threaded_acks_ok", 0) > 100, "threaded client: too few acknowledgements")
     run.need(run.counters.get("threaded_statp_with_128_or_more_records", 0) >= 5, "threaded client: no partial update with 128 or more records")
+    run.need(run.counters.get("threaded_statp_with_restoring_record", 0) >= 20, "threaded client: no partial update with a record restoring the previous value")
     run.need(run.counters.get("threaded_floods", 0) >= 4, "threaded client: no flood of partial updates")
     run.need(run.counters.get("threaded_long_connections", 0) >= 1, "threaded client: the long-lived connection was not driven")
